@@ -156,7 +156,13 @@ func (c *RegConfig) ParseOrResolveBlocklisted(provided string) (string, bool) {
 	if err != nil {
 		return "", lookup
 	}
-	if addr == nil || c.isBlocklistedCovertAddr(addr.IP) {
+	if addr == nil || addr.IP.To16() == nil {
+		// An empty host resolves to an address that carries no IP. Joined with
+		// the port that is ":port", which net.Dial connects to the local host,
+		// and no subnet of the blocklist can contain it.
+		return "", lookup
+	}
+	if c.isBlocklistedCovertAddr(addr.IP) {
 		return "", lookup
 	}
 	return net.JoinHostPort(addr.String(), port), lookup
